@@ -178,8 +178,12 @@ pub fn file_line(kind: usize, k: usize, renderer: &str, size: usize) -> String {
     let ext = if renderer == "svgu" { "svg" } else { renderer };
     // every other size: the destination is spelled with multi-byte characters (a user's documents folder), long enough
     // for any "shorten the path for the message" logic to cut it somewhere
-    let leaf = if (size + kind) % 2 == 1 { "Документы-文件-données-été/выход-输出-résumé-naïve-façade" } else { "out" };
-    if leaf != "out" {
+    // (for the kinds that do not use `k` it pads the name with k ASCII characters, so that a cut at a fixed byte distance
+    // from either end falls on different characters)
+    let pad = if kind == 5 || kind == 17 { String::new() } else { "x".repeat(k % 8) };
+    let leaf_s = if (size + kind) % 2 == 1 { format!("Документы-文件-données-été/выход-输出-résumé-naïve-façade-ÿ{}", pad) } else { format!("out{}", pad) };
+    let leaf = leaf_s.as_str();
+    if leaf.contains('/') {
         std::fs::create_dir_all(format!("{}/Документы-文件-données-été", dir)).unwrap();
     }
     let mut path = format!("{}/{}.{}", dir, leaf, ext);
@@ -278,6 +282,12 @@ pub fn gen(out: &mut crate::gen::Out, rng: &mut crate::rng::Rng, thorough: bool)
         for size in if thorough { vec![0usize, 4, 11] } else { vec![4usize] } {
             for kind in [0usize, 1, 2, 3, 4, 6, 7, 8, 9, 10, 11, 12, 13, 14, 15] {
                 out.job(move || file_line(kind, 0, renderer, size));
+            }
+            // failing destinations under differently padded names (1: missing directory, 2: the path is a directory, 3: unwritable)
+            for kind in [1usize, 2, 3] {
+                for pad in 1..(if thorough { 8 } else { 4 }) {
+                    out.job(move || file_line(kind, pad, renderer, size));
+                }
             }
             if renderer == "png" {
                 out.job(move || file_line(16, 0, renderer, size));
